@@ -383,6 +383,10 @@ fn blanks(input: Span) -> IResult<Span, ()> {
     V("seed-C10-r2-m1-type-annotation-no-c02-alarm", [("@patch", "seeded/C10-r2-m1/patch.diff")], {"C10": "D:ahash:features", "C02": None}),
     V("seed-C12-r2-m3-zsh-exclusive-bound", [("@patch", "seeded/C12-r2-m3/patch.diff")], {"C12": "SIBLINGS:zsh:literal-loop-bounds"}),
     V("seed-C13-r2-m1-pwsh-arm-shell-span", [("@patch", "seeded/C13-r2-m1/patch.diff")], {"C13": "FF:parse::Grammar::get_specializations"}),
+    V("seed-C14-r2-m1-empty-comment-is-literal", [("@patch", "seeded/C14-r2-m1/patch.diff")], {"C14": "BLANKS:parse::comment:combinators"}),
+    V("seed-C13-r2-m3-unused-span-overwritten", [("@patch", "seeded/C13-r2-m3/patch.diff")], {"C13": "BOOK:"}),
+    V("seed-C14-r2-m3-eof-branch-without-skipper", [("@patch", "seeded/C14-r2-m3/patch.diff")], {"C14": "SEQSKIP:parse::call_variant:expr->end_of_statement"}),
+    V("benign-skipper-moved-into-end-of-statement", [("src/parse.rs", "    alt((map(char(';'), |_| ()), map(eof, |_| ()))).parse(input)", "    preceded(multiblanks0, alt((map(char(';'), |_| ()), map(eof, |_| ())))).parse(input)"), ("src/parse.rs", "    let (after, expr) = expr(arena, after)?;\n    let (after, _) = multiblanks0(after)?;\n    let (after, _) = end_of_statement(after)?;", "    let (after, expr) = expr(arena, after)?;\n    let (after, _) = end_of_statement(after)?;")], {"C14": None}),
     # ---------------- C10
     V("c10-std-hashset-in-dfa", [("src/dfa.rs", "use hashbrown::{HashMap, HashSet};", "use hashbrown::HashMap;\nuse std::collections::HashSet;")], {"C10": "HASHORD:dfa::dfa_from_regex"}),
     V("c10-env-var", [("src/lib.rs", '    let version = env!("COMPLGEN_VERSION");', '    let version = std::env::var("COMPLGEN_VERSION").unwrap_or_default();')], {"C10": "AMBIENT:signature"}),
